@@ -89,6 +89,8 @@ func runCall(c histCall, shared *pql.CompileOptions) string {
 		sql, err = (&pql.CompileOptions{Parameters: map[string]string{}}).Compile(c.Src)
 	case "shared":
 		sql, err = shared.Compile(c.Src)
+	case "twin0", "twin1", "twin2", "twin3", "twin4":
+		sql, err = (&pql.CompileOptions{Parameters: twinMap(shared.Parameters, int(c.Opts[4]-'0'))}).Compile(c.Src)
 	default:
 		own := &pql.CompileOptions{Parameters: map[string]string{}}
 		for k, v := range shared.Parameters {
@@ -100,6 +102,39 @@ func runCall(c histCall, shared *pql.CompileOptions) string {
 		return "SQL:" + sql + " ERR:" + err.Error()
 	}
 	return "SQL:" + sql
+}
+
+// twinMap derives from the shared parameter map a different map that is easy
+// to confuse with it: the two print alike under fmt's %v, have the same keys
+// with the values exchanged, or differ in one entry only.
+func twinMap(shared map[string]string, which int) map[string]string {
+	keys := make([]string, 0, len(shared))
+	for k := range shared {
+		keys = append(keys, k)
+	}
+	sort.Strings(keys)
+	out := copyMap(shared)
+	if len(keys) < 2 {
+		out["zz_extra"] = "$9"
+		return out
+	}
+	k1, k2 := keys[len(keys)-2], keys[len(keys)-1]
+	switch which {
+	case 0:
+		delete(out, k2)
+		out[k1] = shared[k1] + " " + k2 + ":" + shared[k2]
+	case 1:
+		delete(out, k1)
+		delete(out, k2)
+		out[k1+":"+shared[k1]+" "+k2] = shared[k2]
+	case 2:
+		out[k1], out[k2] = shared[k2], shared[k1]
+	case 3:
+		delete(out, k2)
+	default:
+		out["zz_extra"] = "$9"
+	}
+	return out
 }
 
 func copyMap(m map[string]string) map[string]string {
@@ -227,13 +262,28 @@ func checkHistory(h *history) (msg string, harnessErr string) {
 		switch c.Opts {
 		case "func", "nil", "zero", "empty", "":
 			key += "noparams"
-		default:
+		case "shared", "own":
 			key += "params"
+		default:
+			key += c.Opts
 		}
 		if prev, ok := memo[key]; ok && prev != seq.Results[i] {
 			return fmt.Sprintf("call %d (%s, options %q) on %+q gives a different result than an earlier equivalent call:\n earlier: %s\n now:     %s", i, c.Kind, c.Opts, c.Src, prev, seq.Results[i]), ""
 		}
 		memo[key] = seq.Results[i]
+	}
+	// the result is a function of the source text and the parameters: the same
+	// program with more white space at its end (a text no earlier call has
+	// seen) compiles to the same SQL
+	for i, c := range h.Calls {
+		if c.Kind != "compile" || strings.Contains(seq.Results[i], " ERR:") {
+			continue
+		}
+		c2 := c
+		c2.Src = c.Src + "\n" + strings.Repeat(" ", i%7)
+		if r := runCall(c2, &pql.CompileOptions{Parameters: copyMap(h.Shared)}); r != seq.Results[i] {
+			return fmt.Sprintf("call %d (options %q) on %+q gives a different result than the same program followed by white space, compiled with equal parameters:\n in the history: %s\n on its own:     %s", i, c.Opts, c.Src, seq.Results[i], r), ""
+		}
 	}
 	// a second sequential run (history dependence)
 	again := runSequential(h)
@@ -321,6 +371,11 @@ func TestC14Histories(t *testing.T) {
 				sb.WriteString("T")
 				for j := 0; j < nops; j++ {
 					sb.WriteString(rapid.SampledFrom([]string{" | where a > 1", " | extend c = a + 1", " | take 5", " | project a, b, c = 1", " | summarize a = count() by b", " | sort by a"}).Draw(rt, "longop"))
+					if j%9 == 4 && nops%2 == 1 {
+						// several operators that each fail for a reason of their own:
+						// which error is reported is part of the result
+						sb.WriteString(rapid.SampledFrom([]string{" | where not(a, b)", " | where isnull()", " | extend d = strcat()", " | where $left.a == 1", " | extend e = iff(a)"}).Draw(rt, "badop"))
+					}
 				}
 				pool = append(pool, sb.String())
 			case 10:
@@ -362,7 +417,7 @@ func TestC14Histories(t *testing.T) {
 				c.Kind = "scan"
 			default:
 				c.Kind = "compile"
-				c.Opts = rapid.SampledFrom([]string{"func", "nil", "zero", "empty", "shared", "shared", "shared", "own"}).Draw(rt, "opts")
+				c.Opts = rapid.SampledFrom([]string{"func", "nil", "zero", "empty", "shared", "shared", "shared", "own", "twin0", "twin1", "twin2", "twin3", "twin4"}).Draw(rt, "opts")
 			}
 			if c.Kind == "compile" && c.Opts == "shared" {
 				if strings.HasPrefix(c.Src, "let ") {
